@@ -653,4 +653,38 @@ theorem gemmx_loopcount (v : Variant) (n : Nat) (op : GemmxOp) (P : GParams) (h 
     simp [hk] at h
 
 
+
+/-! ### the region verifier and the address stream of the written dimensions -/
+
+theorem regionAccepts_fits (cfg : List Streamer) (op : StreamOp) (h : regionAccepts cfg op = true)
+    (s : Nat) (st : Streamer) (p : Pattern) (hst : cfg[s]? = some st) (hp : op.pats[s]? = some p) :
+    p.dims.length ≤ st.tdims.length ∧ p.ss.length ≤ st.sdims.length := by
+  unfold regionAccepts at h
+  simp only [Bool.and_eq_true, List.all_eq_true, decide_eq_true_eq] at h
+  have hm : (st, p) ∈ cfg.zip op.pats :=
+    List.mem_iff_getElem?.mpr ⟨s, List.getElem?_zip_eq_some.mpr ⟨hst, hp⟩⟩
+  exact h.2 (st, p) hm
+
+theorem addrsOut_unit (rest : List (Int × Int)) : addrsOut ((1, 0) :: rest) = addrsOut rest := by
+  simp [addrsOut]
+
+theorem addrsOut_replicate_unit (k : Nat) (rest : List (Int × Int)) :
+    addrsOut (List.replicate k (1, 0) ++ rest) = addrsOut rest := by
+  induction k with
+  | zero => simp
+  | succ k ih => rw [List.replicate_succ, List.cons_append, addrsOut_unit, ih]
+
+theorem writtenDims_eq_pad (st : Streamer) (p : Pattern) (hle : p.dims.length ≤ st.tdims.length) :
+    writtenDims st p = padDims st p := by
+  unfold writtenDims
+  apply List.map_snd_zip
+  simp [padDims]; omega
+
+theorem written_stream (st : Streamer) (p : Pattern) (hle : p.dims.length ≤ st.tdims.length) :
+    addrStream (writtenDims st p) = addrStream p.dims := by
+  rw [writtenDims_eq_pad st p hle]
+  unfold addrStream padDims
+  rw [List.reverse_append, List.reverse_replicate, addrsOut_replicate_unit]
+
+
 end SnaxVerif.SV
